@@ -232,22 +232,43 @@ def jobs_c05(tier, seed):
 
 def jobs_c08(tier, seed):
     f = ["c08"]
-    names = [
-        ("never_write", "AutoStream::never: one write() of a symbolic <=1-byte buffer vs StripStream"),
-        ("never_write_all", "AutoStream::never: one write_all() of a symbolic <=2-byte buffer vs StripStream"),
-        ("never_write_vectored", "AutoStream::never: one write_vectored() (<=1 byte, 1 byte) vs StripStream"),
-        ("never_write_fmt", "AutoStream::never: one formatted write of two 1-byte fragments vs StripStream"),
-        ("never_flush", "AutoStream::never: flush"),
-        ("new_never_write_all", "AutoStream::new(.., Never): one write_all() of a symbolic <=2-byte buffer vs StripStream"),
-        ("new_never_write_fmt", "AutoStream::new(.., Never): one formatted write vs StripStream"),
-        ("never_state_carried_across_calls", "AutoStream::never: write_all ending inside an escape sequence, then write_all of any byte"),
-        ("always_ansi_two_ops", "AutoStream::always_ansi: any two operations (kinds symbolic), bytes forwarded unchanged"),
+    vs = "vs a StripStream fed the same operation"
+    sp = "vs the strip specification (one stream: write()'s short-write machinery costs ~10 GB per stream)"
+    # (name, bound, expected GB, quick?)
+    never = [
+        ("never_write_all_2", f"AutoStream::never: one write_all() of 2 symbolic bytes {vs}", 6, True),
+        ("new_never_write_all_1", f"AutoStream::new(.., Never): one write_all() of 1 symbolic byte {vs}", 6, True),
+        ("never_state_carried_across_calls", f"AutoStream::never: write_all ending inside an escape sequence, then write_all of any byte, {vs}", 7, True),
+        ("never_flush", "AutoStream::never: flush", 1, True),
+        ("never_spec_write_1", f"AutoStream::never: one write() of 1 symbolic byte {sp}", 11, True),
+        ("never_spec_write_vectored_0", f"AutoStream::never: one write_vectored() (empty slice, 1 symbolic byte) {sp}", 11, True),
+        ("never_write_all_1", f"AutoStream::never: one write_all() of 1 symbolic byte {vs}", 6, False),
+        ("new_never_write_all_2", f"AutoStream::new(.., Never): one write_all() of 2 symbolic bytes {vs}", 6, False),
+        ("never_spec_write_2", f"AutoStream::never: one write() of 2 symbolic bytes {sp}", 11, False),
+        ("never_spec_write_vectored_1", f"AutoStream::never: one write_vectored() (1 symbolic byte, 1 symbolic byte) {sp}", 11, False),
+        ("new_never_spec_write_1", f"AutoStream::new(.., Never): one write() of 1 symbolic byte {sp}", 11, False),
+    ]
+    opt = [
+        ("never_spec_write_fmt", f"AutoStream::never: one formatted write of two symbolic ASCII fragments {sp} (exceeds 14 GB)", 30),
+        ("never_write_fmt", f"AutoStream::never: formatted write {vs}", 30),
+        ("never_write_1", f"AutoStream::never: one write() of 1 symbolic byte {vs}", 30),
+        ("never_dyn_writer", "AutoStream::never over &mut dyn Write: one byte (text or ESC); exceeds 20 min: CBMC resolves the inner dyn call against every Write impl", 30),
+    ]
+    rest = [
+        ("always_ansi_two_ops", "AutoStream::always_ansi over &mut dyn Write: any two operations (kinds symbolic), bytes forwarded unchanged"),
         ("always_two_ops", "AutoStream::always (non-Windows): same"),
         ("new_always_ansi_two_ops", "AutoStream::new(.., AlwaysAnsi): same"),
         ("new_always_two_ops", "AutoStream::new(.., Always): same"),
-        ("vec_into_inner", "owned Vec<u8>: into_inner returns all bytes delivered (1-byte write_all, both modes)"),
     ]
-    return [J(f"c08::{n}", features=f, timeout_s=1800, mem_gb=20, expect_gb=5, bound=b) for n, b in names]
+    jobs = []
+    for n, b, gb, quick in never:
+        if quick or tier == "thorough":
+            jobs.append(J(f"c08::{n}", features=f, timeout_s=1500, mem_gb=20, expect_gb=gb, bound=b))
+    jobs += [J(f"c08::{n}", features=f, timeout_s=1200, mem_gb=12, expect_gb=2, bound=b) for n, b in rest]
+    jobs.append(J("c08::vec_into_inner", features=f, timeout_s=1500, mem_gb=20, expect_gb=10, bound="owned Vec<u8>: into_inner returns all bytes delivered (1-byte write_all, both modes)"))
+    if tier == "thorough":
+        jobs += [J(f"c08::{n}", features=f, timeout_s=2 * 3600, mem_gb=40, expect_gb=gb, optional=True, bound=b) for n, b, gb in opt]
+    return jobs
 
 
 def jobs_c09(tier, seed):
@@ -558,7 +579,7 @@ REGISTRY = {
         "jobs": jobs_c08,
         "level": "model_checking",
         "functions": ["anstream::AutoStream::{new, never, always, always_ansi, into_inner, current_choice} and its io::Write impl over &mut dyn Write and Vec<u8>", "anstream::StripStream (oracle for Never)"],
-        "bounds": {"quick": "pass-through: every sequence of 2 write-family operations (kind symbolic among write/write_all/write_vectored/write_fmt/flush), payloads <=2 bytes; Never: every single operation, one query per kind (write_all, write_fmt, flush with <=2 bytes; write / write_vectored with <=1-byte first slice) and a two-call sequence cut inside an escape sequence, each against a StripStream fed the same operations", "thorough": "same"},
+        "bounds": {"quick": "pass-through: every sequence of 2 write-family operations (kind symbolic among write/write_all/write_vectored/write_fmt/flush), payloads <=2 bytes; Never (concrete in-memory raw stream via the Sealed hook): write_all of 1-2 symbolic bytes and a two-call sequence cut inside an escape sequence against a StripStream fed the same operations; write() and write_vectored() of 1 symbolic byte against the strip specification; flush; owned Vec<u8> into_inner", "thorough": "adds the other payload lengths / constructors for write, write_all, write_vectored, and (optional, >14 GB or >20 min each) write_fmt, write() against a second stream, Never over &mut dyn Write"},
         "outside": "longer operation sequences and payloads; files and boxed writers (same generic code); ColorChoice::Auto is C09; Windows arms",
         "assumptions": ["Never is compared with a StripStream fed the same operations (C01/C06 tie the strip stream to the model)"],
     },
